@@ -194,7 +194,7 @@ type prodM struct {
 	recancelled    bool  // a second cancel transaction was accepted
 	penAfterExpiry bool  // illegal evidence processed after StakeUntil had passed
 	penAfterCancel bool  // illegal evidence processed after the cancel transaction (DPoS v1)
-	retired        bool // DPoS v1 producer still registered (not cancelled) when DPoSV2ActiveHeight was processed
+	retired        bool  // DPoS v1 producer still registered (not cancelled) when DPoSV2ActiveHeight was processed
 	deposited      int64 // everything ever sent to the deposit address from outside
 	withdrawn      int64 // everything that left the deposit address (inputs − change)
 }
@@ -705,7 +705,11 @@ func (in *inst) Apply(op string) *fail {
 			in.block(o.tx)
 			// the lock-up period runs from the first cancellation; cancelling again (the node
 			// accepts that for a producer whose deposit has been returned) does not re-lock
-			if !in.prod[p].cancelled {
+			if in.prod[p].retired {
+				// retirement at DPoSV2ActiveHeight already cancelled the producer: a cancel
+				// transaction accepted afterwards (Returned state) is a second cancellation
+				in.prod[p].recancelled = true
+			} else if !in.prod[p].cancelled {
 				in.prod[p].cancelled, in.prod[p].cancelH = true, in.h
 			} else {
 				in.prod[p].recancelled = true
